@@ -90,7 +90,7 @@ def gen_body(rng):
 
 
 def gen_block(rng):
-    n = rng.choice([0, 1, 1, 2, 3, 4, 6, 9, 12])
+    n = rng.choice([0, 1, 1, 2, 3, 4, 6, 9, 12, 15, 16, 17, 18, 31, 32, 33, 64, 65, 100])  # the reader's line buffer grows at 16, 32, 64 ...
     lines = []
     for i in range(n):
         ind = bytes(rng.choice(b" \t") if rng.random() < 0.15 else 0x20 for _ in range(rng.choice([0, 0, 1, 2, 2, 4, 4, 6, 8, 15, 16, 17, 20])))
